@@ -326,6 +326,8 @@ pub struct WdStats {
     pub polls_after_true: Cell<u64>,
     pub budget_exhausted: Cell<bool>,
     pub site_of_first_true: Cell<Option<usize>>,
+    /// The simulated supervisor has stored `true` into the shared flag.
+    pub supervisor_fired: Cell<bool>,
     /// Site (loop kind) of every poll, in order; 255 = unattributed.
     pub poll_sites: RefCell<Vec<u8>>,
 }
@@ -370,10 +372,12 @@ impl Watchdog for SimWatchdog {
             None => self.answer(index),
             Some((real, handle)) => {
                 // Discrete-event model of the supervising thread: its timer
-                // has fired iff the simulated clock (poll index) reached the
-                // deadline; then it stores `true`. The analysis side is the
-                // library's real `FlagWatchdog::should_stop`.
-                if self.answer(index) {
+                // fires once, when the simulated clock (poll index) reaches
+                // the deadline, and it stores `true` once - it does not keep
+                // re-raising the flag. The analysis side is the library's
+                // real `FlagWatchdog::should_stop`.
+                if self.answer(index) && !self.stats.supervisor_fired.get() {
+                    self.stats.supervisor_fired.set(true);
                     handle.store(true, Ordering::Relaxed);
                 }
                 real.should_stop()
@@ -733,7 +737,7 @@ pub fn poisoned_hashes() -> SlotHashes {
     })
 }
 
-fn tc_config(poisoned: bool) -> tc::Config {
+pub fn tc_config(poisoned: bool) -> tc::Config {
     let table = if poisoned { poisoned_hashes() } else { shared_hashes() };
     // The default pass list of `LiftingPasses::default()`, in the same order,
     // with the hash table shared instead of recomputed.
